@@ -209,6 +209,7 @@ type HarnessRun struct {
 	maxDepth      int
 	stepLimit     int64
 	maxPaths      int
+	maxWallS      int
 	noIfConv      bool
 	noSymRef      bool
 	assumeProven  bool
@@ -245,6 +246,9 @@ func (h *HarnessRun) setDefaults() {
 	}
 	if h.maxPaths == 0 {
 		h.maxPaths = 200000
+	}
+	if h.maxWallS == 0 {
+		h.maxWallS = 900
 	}
 	if h.timeoutMS == 0 {
 		h.timeoutMS = 20000
@@ -372,6 +376,10 @@ func (e *Engine) Explore(h *HarnessRun) {
 				}
 			}
 			if status == StFault {
+				stop = true
+			}
+			if !stop && time.Since(t0) > time.Duration(h.maxWallS)*time.Second {
+				res.Problems = append(res.Problems, fmt.Sprintf("wall-clock budget %ds exhausted after %d paths (bound too large for this harness)", h.maxWallS, res.Paths))
 				stop = true
 			}
 			if res.Paths >= h.maxPaths {
